@@ -42,6 +42,10 @@ const (
 
 	// Session key length for symmetric encryption after SSL handshake
 	AuthSSLSessionKeyLen = 256
+
+	// maxSciTokenSize bounds the peer-declared size of a SciToken sent over the
+	// TLS channel (matches HTCondor's AUTH_SSL_BUF_SIZE).
+	maxSciTokenSize = 1024 * 1024
 )
 
 // SSLAuthenticator handles SSL certificate-based authentication following HTCondor's protocol
@@ -919,6 +923,11 @@ func (ssl *SSLAuthenticator) exchangeSciToken(ctx context.Context, negotiation *
 
 		tokenSize := int(sizeBytes[0])<<24 | int(sizeBytes[1])<<16 | int(sizeBytes[2])<<8 | int(sizeBytes[3])
 		slog.Info("🔐 SSL: Expecting SciToken", "bytes", tokenSize, "destination", "cedar")
+		// The size is peer-controlled and the buffer is allocated before any
+		// token byte arrives; bound it (HTCondor's AUTH_SSL_BUF_SIZE is 1 MiB).
+		if tokenSize > maxSciTokenSize {
+			return "", fmt.Errorf("SciToken size %d exceeds maximum %d", tokenSize, maxSciTokenSize)
+		}
 
 		// Read token data
 		tokenBytes := make([]byte, tokenSize)
